@@ -409,7 +409,18 @@ def k_endpoint_text(P, v1, v2, v3):
     return [t for p_, t in c.file_manager.writes if str(p_).endswith("things.py")]
 
 
-SET_KERNELS = {"path_params": k_path_params, "op_tags": k_op_tags, "endpoint_text": k_endpoint_text}
+def k_tag_spelling(P, v1, v2, v3):
+    """module file / class / client attribute chosen for two operations whose tags are two symbolic spellings (the spellings
+    may normalise to one tag key, in which case EndpointsEmitter.emit picks the canonical one by tag_score)"""
+    from props import c07
+
+    # the symbolic two-character cores sit between concrete letters ("a" + v + "c"), so that two spellings of one tag key
+    # that tie on every structural score and still give different module names ("ab_c" / "a_bc") are inside the bound
+    groups, written, tuples = c07.k_routing(P, [["a" + v1 + "c"], ["a" + v2 + "c"]])
+    return [[(c07._file_text(p_), list(ix)) for p_, ix in groups], [list(w) for w in written], [list(t) for t in tuples]]
+
+
+SET_KERNELS = {"path_params": k_path_params, "op_tags": k_op_tags, "endpoint_text": k_endpoint_text, "tag_spelling": k_tag_spelling}
 VARS = ranges_of_pts([ord(c) for c in "abAB_1"])
 
 
@@ -426,6 +437,8 @@ class SetOrder(Obligation):
         self.functions = {"path_params": ["pyopenapi_gen.visit.endpoint.processors.parameter_processor:EndpointParameterProcessor._ensure_path_variables_as_params",
                                           "pyopenapi_gen.helpers.url_utils:extract_url_variables"],
                           "op_tags": ["pyopenapi_gen.core.loader.operations.parser:parse_operations"],
+                          "tag_spelling": ["pyopenapi_gen.emitters.endpoints_emitter:EndpointsEmitter.emit", "pyopenapi_gen.core.utils:NameSanitizer.normalize_tag_key",
+                                           "pyopenapi_gen.visit.client_visitor:ClientVisitor.visit"],
                           "endpoint_text": ["pyopenapi_gen.emitters.endpoints_emitter:EndpointsEmitter.emit", "pyopenapi_gen.visit.endpoint.endpoint_visitor:EndpointVisitor.emit_endpoint_client_class",
                                             "pyopenapi_gen.visit.endpoint.processors.parameter_processor:EndpointParameterProcessor.process_parameters"]}[kind]
         self.bounds = {"names": "%d symbolic names of lengths %r over 'abAB_1', pairwise distinct (one may be a prefix of another)" % (n, list(self.lens)),
@@ -707,6 +720,7 @@ def specs(tier):
     out.append((MOD, "mk_set_order", ("endpoint_text", 2, "reverse" if q else "bits")))
     # names one of which may be a prefix of the other, the longer placeholder first (`/{ab}/{a}`)
     out.append((MOD, "mk_set_order", ("path_params", 2, "reverse", (2, 1))))
+    out.append((MOD, "mk_set_order", ("tag_spelling", 2, "reverse", (2, 2))))
     if not q:
         out.append((MOD, "mk_set_order", ("path_params", 3, "bits", (2, 1, 2))))
         out.append((MOD, "mk_set_order", ("endpoint_text", 2, "bits", (2, 1))))
